@@ -20,6 +20,7 @@ import TracingModel.Core.WritersDriver
 import TracingModel.Core.JsonDriver
 import TracingModel.Core.NonBlockingDriver
 import TracingModel.Core.RollingDriver
+import TracingModel.Core.MacrosDriver
 
 open TM TM.Wire
 
@@ -76,6 +77,7 @@ def dispatch (prop mode : String) : Option (List String → String) :=
   | "C13", "spec" => some WritersDriver.spec
   | "C12", "model" => some ReloadDriver.model
   | "C12", "spec" => some ReloadDriver.spec
+  | "C10", "model" => some MacrosDriver.model
   | "C11", "model" => some DirectiveDriver.model
   | "C19", "model" => some LevelsDriver.model
   | "C19", "judge" => some LevelsDriver.judge
